@@ -3,7 +3,7 @@ import itertools
 
 from ..env import np, puan, pg
 from .. import ref, families
-from ..ast import bind, leaves_of, compounds_of, show, is_var, walk
+from ..ast import bind, leaves_of, compounds_of, show, is_var, walk, structure
 
 ID = "C07"
 RULE = ("Mode G: edge assume(d) from every validated model of the families for EVERY dictionary d over <=1 or <=2 ids of the model "
@@ -11,7 +11,8 @@ RULE = ("Mode G: edge assume(d) from every validated model of the families for E
         "diamonds: 0, 1, (0,1); forms int/tuple/Bounds) x every total interpretation rho of the remaining leaves; fresh objects on both "
         "sides. oracle: assume(d).evaluate(rho) == original.evaluate(d U rho) (and == reference truth with overrides when d is constant); "
         "every variable of assume(d).flatten() not named in d has bounds containing every value the reference gives it over all completions "
-        "consistent with d. non-trivial = distinct (model, d) whose results over rho are not all equal")
+        "consistent with d. Plus, per model, one receiver and one dictionary OBJECT updated in place through every leaf constant and back "
+        "(assume / evaluate must answer for the current content). non-trivial = distinct (model, d) whose results over rho are not all equal")
 ASSUMPTIONS = [
     "filter errors()==[]",
     "the original model is re-bound for every call (evaluate with a dictionary naming a sub-proposition id mutates its receiver: C09 finding D3)",
@@ -88,6 +89,10 @@ def check_model(m, acc, fam, k, maxd, which, only_d=None):
             entries.append(("N", c, idof[c], [(0, 0), (1, 1)]))
             continue
         entries.append(("N", c, idof[c], [(0, 0), (1, 1), (0, 1)]))
+    if only_d is None or only_d == "shared-dict":
+        check_shared_dict(m, acc, case0, leaves, lids)
+        if only_d == "shared-dict":
+            return
     di = -1
     for r in range(1, maxd + 1):
         for sel in itertools.combinations(range(len(entries)), r):
@@ -96,6 +101,43 @@ def check_model(m, acc, fam, k, maxd, which, only_d=None):
                 if only_d is not None and di != only_d:
                     continue
                 check_d(m, [(entries[j], v) for j, v in zip(sel, vals)], di, acc, case0, leaves, lids, comps, idof, k)
+
+
+def check_shared_dict(m, acc, case0, leaves, lids):
+    """ONE receiver and ONE dictionary object, updated in place between the calls (the loop a caller writes when it walks through
+    interpretations): assume(D) and evaluate(D) must answer for the CONTENT D has at the moment of the call. Only leaves are named, so
+    the receiver is not changed by the calls (naming a sub-proposition id is C09's finding D3). The sequence walks through every
+    constant of every leaf, then back, so that each content follows both a different and (once) the same content."""
+    seq = [{i: v} for i in lids for v in (leaf_values(*leaves[i]) if leaves[i][1] - leaves[i][0] <= 100 else leaf_values(*leaves[i])[:6]) if v[0] == v[1]]
+    seq = [{i: v[0] for i, v in d.items()} for d in seq]
+    if len(lids) >= 2:
+        seq += [{lids[0]: leaves[lids[0]][0], lids[1]: leaves[lids[1]][1]}, {lids[0]: leaves[lids[0]][1], lids[1]: leaves[lids[1]][0]}]
+    seq = seq + seq[::-1]
+    case = dict(case0, d_index="shared-dict")
+    try:
+        recv, _ = bind(m)
+        D = {}
+        for n_, d in enumerate(seq):
+            D.clear()
+            D.update(d)
+            acc.n("traces")
+            acc.n("transitions", 4)
+            got = (structure(recv.assume(D)), recv.evaluate(D).as_tuple())
+            fresh, _ = bind(m)
+            fresh2, _ = bind(m)
+            want = (structure(fresh.assume(dict(d))), fresh2.evaluate(dict(d)).as_tuple())
+            if D != d:
+                acc.violation(None, case, {"what": "assume / evaluate changed the caller's dictionary", "model": show(m), "given": repr(d), "now": repr(D)})
+                return
+            if got != want:
+                acc.violation(None, case, {"what": "assume / evaluate on a dictionary object that was updated in place answers for an earlier content "
+                                                   "(differs from a fresh object given a fresh dictionary of the same content)", "model": show(m),
+                                           "step": n_, "content": repr(d), "previous_content": repr(seq[n_ - 1]) if n_ else None,
+                                           "got_evaluate": tuple(map(int, got[1])), "want_evaluate": tuple(map(int, want[1])),
+                                           "assume_structures_equal": got[0] == want[0]})
+                return
+    except BaseException as e:
+        acc.violation(None, case, {"what": "shared-dictionary pass raised", "exc": repr(e), "model": show(m)})
 
 
 def check_d(m, chosen, di, acc, case0, leaves, lids, comps, idof, k):
